@@ -457,7 +457,14 @@ def gen_cases(ctx):
                         if op == "div" and sr == "str" and rng.random() < 0.8:
                             sr = rng.choice(["pos", "neg"])
                         exact = rng.random() < 0.8
+                        quick = ctx.tier != "thorough"
+                        if quick and dep == "i":
+                            # the model sorts n*n 53-bit rationals for every independent case with a non-integer operand (about a
+                            # second each): the quick tier keeps integer operands there and half of the distribution cells
+                            exact = True
                         l, r = gen_opd(rng, lk, sl, exact), gen_opd(rng, rk, sr, exact)
+                        if quick and dep == "i" and "dist" in (lk, rk) and op in ("sub", "div"):
+                            continue
                         cases.append(("expr", dep, op, l, r))
     # witnesses of the defects repaired in the worktree (always present)
     I12, Pw = ("I", 1, 2), ("P", [4] * 100 + [6] * 100, [5] * 100 + [9] * 100)
@@ -504,7 +511,7 @@ def gen_cases(ctx):
         sl, sr = rng.choice(signs), rng.choice(signs)
         if op == "div" and sr == "str":
             sr = rng.choice(["pos", "neg"])
-        exact = rng.random() < 0.8
+        exact = rng.random() < (0.8 if ctx.tier == "thorough" else 0.92)
         l, r = gen_opd(rng, lk, sl, exact), gen_opd(rng, rk, sr, exact)
         for dep in DEPS:
             cases.append(("spec", dep, op, l, r))
@@ -532,7 +539,7 @@ def gen_cases(ctx):
         for op in OPS:
             for order in (0, 1):
                 H = partners[k % len(partners)]
-                dep = DEPS[(k // 2) % 4] if ctx.tier == "thorough" or k % 5 else "p"
+                dep = DEPS[(k // 2) % 4] if ctx.tier == "thorough" else ("f", "p", "o", "f", "p", "o", "i")[k % 7]
                 k += 1
                 if op == "div" and order == 0 and divisor_has_zero(op, H):
                     H = Pw
@@ -967,6 +974,11 @@ def run(ctx: core.Check):
                 "with an operand of any kind; number/interval pairs embedded as p-boxes under every dependency; both conversion functions; "
                 "histories (a op1 b) op2 c, a op1 (b op2 c), (a op1 b) op2 a over all kinds (the result of one expression is an operand of "
                 "the next, the same operand object used twice), compared with the history on converted operands; operands must come out unchanged. "
+                "Fixed streams: operands touching zero, thin but not degenerate intervals (relative width 1e-9..1e-5, [2e-9,8e-9]), number "
+                "operands below machine epsilon and above 2**53, sequences of DS structures with the same focal elements and different masses "
+                "(their p-box is referred to an independent belief/plausibility inverse, not to the library's conversion), operand "
+                "representations (integer-dtype / list p-box bounds, list parameters, Interval-object / vector / mixed focal elements), other "
+                "entry points (pba.<family>, stacking); results are kept alive and re-read, a sample of expressions is evaluated twice. "
                 "Non-trivial = not (number op number); distinct on (form, dependency, operation, operands).")
     ctx.assumptions = ["a Distribution operand is represented by the quantile list its to_pbox() returns (scipy ppf values are parameters); "
                        "a DempsterShafer operand by the p-box of its to_pbox() (C08's subject)",
